@@ -1,7 +1,703 @@
-//! C-mode (concurrent histories); filled in below.
+//! C-mode: N client threads against one real cache, few keys, un-awaited writes, schedule perturbation and
+//! directed gates. Every client call is recorded at the client boundary (call stamp before invoking, return
+//! stamp after the reply, both from one global counter); acknowledgements are awaited with a real waker.
+//! Offline checkers then decide the per-key read rules (C02/C04), the quiescent accounting (C05), the
+//! command order (C11), shutdown (C13), hit accounting (C15) and the online weight bound (C01).
+use std::collections::{BTreeMap, BTreeSet, HashMap};
+use std::sync::atomic::{AtomicBool, AtomicI64, AtomicU64, Ordering};
+use std::sync::{Arc, Mutex};
+use std::thread;
+use std::time::{Duration, Instant};
+
+use tinylfu_cached::cache::command::acknowledgement::CommandAcknowledgement;
+use tinylfu_cached::cache::command::{CommandStatus, RejectionReason};
+use tinylfu_cached::cache::stats::StatsType;
+use tinylfu_cached::cache::verif::{CommandKind, Event, Role, Site};
+
 use crate::props::Shard;
+use crate::rt::{self, recorder, sched, Waited};
+use crate::seq::{Finding, NS};
+use crate::sut::*;
+use crate::util::{fnv_step, Counts, Rng, J};
 use crate::Args;
 
-pub fn run(args: &Args) -> Shard {
-    Shard::new("conc", &args.str("focus", "C02"))
+#[derive(Clone, Debug)]
+pub enum Outcome {
+    Read { key: u64, variant: usize, got: Option<u64> },
+    Write { op: WriteOp, uid: u64, error: Option<String>, panicked: Option<String>, status: Option<Waited>, acked_at: Option<u64> },
+    Shutdown,
 }
+
+#[derive(Clone, Debug)]
+pub struct OpRec {
+    pub thread: u64,
+    pub call: u64,
+    pub ret: u64,
+    pub outcome: Outcome,
+}
+
+impl OpRec {
+    pub fn to_json(&self) -> J {
+        let mut o = J::obj().with("thread", J::Int(self.thread as i128)).with("call", J::Int(self.call as i128)).with("ret", J::Int(self.ret as i128));
+        match &self.outcome {
+            Outcome::Read { key, variant, got } => {
+                o.set("op", J::s(READ_VARIANTS[*variant % 7])); o.set("key", J::Int(*key as i128));
+                o.set("got", got.map(|g| J::s(format!("{:#x}", g))).unwrap_or(J::Null));
+            }
+            Outcome::Write { op, uid, error, panicked, status, acked_at } => {
+                o.set("write", op.to_json()); o.set("uid", J::Int(*uid as i128));
+                if let Some(e) = error { o.set("error", J::s(e.clone())); }
+                if let Some(p) = panicked { o.set("panicked", J::s(p.clone())); }
+                o.set("status", status.as_ref().map(|s| J::s(waited_name(s))).unwrap_or(J::Null));
+                o.set("acked_at", acked_at.map(|a| J::Int(a as i128)).unwrap_or(J::Null));
+            }
+            Outcome::Shutdown => { o.set("op", J::s("shutdown")); }
+        }
+        o
+    }
+}
+
+pub struct Pending {
+    pub index: usize,
+    pub ack: Arc<CommandAcknowledgement>,
+    pub uid: u64,
+}
+
+/// A client thread's private log.
+pub struct Client {
+    pub id: u64,
+    pub log: Vec<OpRec>,
+    pub pending: Vec<Pending>,
+    pub counter: u64,
+}
+
+impl Client {
+    pub fn new(id: u64) -> Client { Client { id, log: Vec::new(), pending: Vec::new(), counter: 0 } }
+
+    pub fn token(&mut self, key: u64) -> u64 { self.counter += 1; token(key, self.id, self.counter) }
+
+    pub fn read(&mut self, cache: &Cache, key: u64, variant: usize) -> Option<u64> {
+        let call = rt::stamp();
+        let got = read(cache, variant, key);
+        let ret = rt::stamp();
+        self.log.push(OpRec { thread: self.id, call, ret, outcome: Outcome::Read { key, variant, got } });
+        got
+    }
+
+    /// Issues a write; the acknowledgement is kept pending until `settle` / `settle_all`.
+    pub fn write(&mut self, cache: &Cache, op: WriteOp) -> usize {
+        let call = rt::stamp();
+        let issued = issue(cache, &op);
+        let ret = rt::stamp();
+        let index = self.log.len();
+        match issued {
+            Issued::Ack(ack, uid) => {
+                self.log.push(OpRec { thread: self.id, call, ret, outcome: Outcome::Write { op, uid, error: None, panicked: None, status: None, acked_at: None } });
+                self.pending.push(Pending { index, ack, uid });
+            }
+            Issued::SendError(error) => {
+                self.log.push(OpRec { thread: self.id, call, ret, outcome: Outcome::Write { op, uid: 0, error: Some(error), panicked: None, status: None, acked_at: None } });
+            }
+            Issued::Panicked(message) => {
+                self.log.push(OpRec { thread: self.id, call, ret, outcome: Outcome::Write { op, uid: 0, error: None, panicked: Some(message), status: None, acked_at: None } });
+            }
+        }
+        index
+    }
+
+    /// Awaits every pending acknowledgement in submission order (with a real waker).
+    pub fn settle_all(&mut self, marks: &rt::ThreadMarks) {
+        let pending = std::mem::take(&mut self.pending);
+        for p in pending {
+            let waited = rt::await_ack(p.ack.handle(), p.uid, marks);
+            let at = rt::stamp();
+            if p.uid != 0 { recorder().forget_acked(p.uid); }
+            if let Outcome::Write { status, acked_at, .. } = &mut self.log[p.index].outcome {
+                *status = Some(waited);
+                *acked_at = Some(at);
+            }
+        }
+    }
+}
+
+// ------------------------------------------------------------------------------------------------ offline checkers
+
+struct W<'a> { rec: &'a OpRec, op: &'a WriteOp, status: Option<&'a Waited>, acked_at: Option<u64> }
+
+fn accepted(status: Option<&Waited>) -> bool { matches!(status, Some(Waited::Ready(CommandStatus::Accepted))) }
+fn rejected(status: Option<&Waited>) -> bool { matches!(status, Some(Waited::Ready(CommandStatus::Rejected(_))) | Some(Waited::Ready(CommandStatus::ShuttingDown))) }
+
+/// Per-key read rules (C02, C04a). Unique tokens make this a direct look-up instead of a search.
+pub fn check_reads(logs: &[OpRec], counts: &mut Counts, findings: &mut Vec<Finding>, witness: &dyn Fn(&[&OpRec]) -> J) {
+    let mut writes_by_key: HashMap<u64, Vec<W>> = HashMap::new();
+    let mut by_token: HashMap<u64, usize> = HashMap::new();
+    for rec in logs {
+        if let Outcome::Write { op, status, acked_at, .. } = &rec.outcome {
+            writes_by_key.entry(op.key()).or_default().push(W { rec, op, status: status.as_ref(), acked_at: *acked_at });
+        }
+    }
+    for (_key, writes) in writes_by_key.iter() {
+        for (i, w) in writes.iter().enumerate() { if let Some(value) = w.op.value() { by_token.insert(value, i); } }
+    }
+    for rec in logs {
+        let (key, variant, got) = match &rec.outcome { Outcome::Read { key, variant, got } => (*key, *variant, *got), _ => continue };
+        counts.inc(format!("reads_checked:{}", READ_VARIANTS[variant % 7]));
+        let empty = Vec::new();
+        let writes = writes_by_key.get(&key).unwrap_or(&empty);
+        let overlapping = writes.iter().any(|w| w.rec.call < rec.ret && w.acked_at.map(|a| a > rec.call).unwrap_or(true));
+        if overlapping { counts.inc("reads_overlapping_a_write_of_the_same_key"); }
+        let value = match got { Some(value) => value, None => { counts.inc("reads_absent"); continue } };
+        counts.inc("reads_returned_value");
+        let name = READ_VARIANTS[variant % 7];
+        if token_key(value) != key {
+            findings.push(Finding { props: vec!["C02"], signature: format!("C02/foreign-value/{}", name),
+                detail: format!("{} of key {} returned {:#x}, a value written to key {}", name, key, value, token_key(value)), witness: witness(&[rec]), inconclusive: false });
+            continue;
+        }
+        let source = match by_token.get(&value).map(|i| &writes[*i]) {
+            Some(w) if w.op.key() == key => w,
+            _ => {
+                findings.push(Finding { props: vec!["C02"], signature: format!("C02/value-nobody-wrote/{}", name),
+                    detail: format!("{} of key {} returned {:#x} which no client wrote", name, key, value), witness: witness(&[rec]), inconclusive: false });
+                continue;
+            }
+        };
+        if source.rec.call > rec.ret {
+            findings.push(Finding { props: vec!["C02"], signature: format!("C02/value-from-the-future/{}", name),
+                detail: format!("{} of key {} returned {:#x} whose write began (stamp {}) after the read ended (stamp {})", name, key, value, source.rec.call, rec.ret),
+                witness: witness(&[source.rec, rec]), inconclusive: false });
+            continue;
+        }
+        if source.op.is_put() && rejected(source.status) {
+            findings.push(Finding { props: vec!["C02", "C07"], signature: format!("C02/value-of-a-rejected-put/{}", name),
+                detail: format!("{} of key {} returned {:#x} although its put was answered {}", name, key, value, source.status.map(waited_name).unwrap_or_default()),
+                witness: witness(&[source.rec, rec]), inconclusive: false });
+            continue;
+        }
+        // superseded: another write/delete began after the source was acknowledged and was complete before the read began
+        if let Some(source_acked) = source.acked_at {
+            for other in writes.iter() {
+                if std::ptr::eq(other.rec, source.rec) { continue; }
+                if other.rec.call <= source_acked { continue; }
+                let complete_at = match other.op {
+                    WriteOp::Delete { .. } => Some(other.rec.ret),
+                    _ if other.op.value().is_some() && accepted(other.status) => other.acked_at,
+                    _ => None,
+                };
+                if let Some(complete_at) = complete_at {
+                    if complete_at < rec.call {
+                        let deleted = matches!(other.op, WriteOp::Delete { .. });
+                        let props: Vec<&'static str> = if deleted { vec!["C04", "C02"] } else { vec!["C02", "C08"] };
+                        let what = if deleted { "deleted-value" } else { "superseded-value" };
+                        findings.push(Finding { props, signature: format!("C02/{}/{}", what, name),
+                            detail: format!("{} of key {} (stamps {}..{}) returned {:#x}, acknowledged at {}, although {} (stamps {}..{}, complete at {}) came after it and before the read",
+                                name, key, rec.call, rec.ret, value, source_acked, other.op.shape(), other.rec.call, other.rec.ret, complete_at),
+                            witness: witness(&[source.rec, other.rec, rec]), inconclusive: false });
+                        break;
+                    }
+                }
+            }
+        }
+    }
+}
+
+/// Classifies abnormal acknowledgement outcomes found in client logs (C12 / C17 / C18).
+pub fn check_ack_outcomes(logs: &[OpRec], during_shutdown: bool, counts: &mut Counts, findings: &mut Vec<Finding>, witness: &dyn Fn(&[&OpRec]) -> J, panic_mark: usize) {
+    for rec in logs {
+        if let Outcome::Write { op, status, error, panicked, .. } = &rec.outcome {
+            if let Some(message) = panicked {
+                let site = rt::panics_since(panic_mark).iter().rev().find(|p| p.message == *message).map(rt::panic_site).unwrap_or_else(|| rt::classify_panic(message).to_string());
+                findings.push(Finding { props: vec!["C17"], signature: format!("C17/panic-in-caller/{}/concurrent/{}", op.shape(), site),
+                    detail: format!("{} panicked in the calling thread: {}", op.shape(), message), witness: witness(&[rec]), inconclusive: false });
+            }
+            if error.is_some() && !during_shutdown {
+                findings.push(Finding { props: vec!["C13", "C17"], signature: format!("C13/send-error-while-running/{}", op.shape()),
+                    detail: format!("{} returned an error while the cache was running: {}", op.shape(), error.clone().unwrap()), witness: witness(&[rec]), inconclusive: false });
+            }
+            match status {
+                Some(Waited::Ready(s)) => counts.inc(format!("acks:{}", status_name(s))),
+                Some(Waited::ReadyPending) => findings.push(Finding { props: vec!["C12"], signature: "C12/ready-pending".into(),
+                    detail: format!("awaiting {} yielded the placeholder status Pending", op.shape()), witness: witness(&[rec]), inconclusive: false }),
+                Some(Waited::LostWakeup) => findings.push(Finding { props: vec!["C12"], signature: "C12/lost-wakeup".into(),
+                    detail: format!("{} was acknowledged but the task that polled it was never woken", op.shape()), witness: witness(&[rec]), inconclusive: false }),
+                Some(Waited::WorkerDead) => {
+                    let site = rt::panics_since(panic_mark).last().map(rt::panic_site).unwrap_or_else(|| "no-panic".into());
+                    findings.push(Finding { props: vec!["C17", "C12", "C13"], signature: format!("C17/worker-dead/{}/concurrent", site),
+                        detail: format!("the command worker terminated; the acknowledgement of {} never completes", op.shape()), witness: witness(&[rec]), inconclusive: false })
+                }
+                Some(Waited::Deadlock(d)) => findings.push(Finding { props: vec!["C18", "C12", "C13"], signature: format!("C18/deadlock/await/{}", op.shape()),
+                    detail: format!("every thread is blocked while awaiting {}: {}", op.shape(), d), witness: witness(&[rec]), inconclusive: false }),
+                Some(Waited::Inconclusive(reason)) => findings.push(Finding { props: vec!["C18"], signature: "inconclusive/await".into(), detail: reason.clone(), witness: J::Null, inconclusive: true }),
+                None => {}
+            }
+        }
+    }
+}
+
+/// Quiescent accounting (C05): total = sum of charged weights, charged ids = stored ids.
+pub fn check_quiescent_accounting(sut: &Sut, context: &str, counts: &mut Counts, findings: &mut Vec<Finding>, witness: J) -> bool {
+    let snapshot = sut.snapshot();
+    counts.inc("quiescent_points_checked");
+    counts.add("ids_charged_at_quiescence", snapshot.charged.len() as u64);
+    counts.add("keys_held_at_quiescence", snapshot.stored.len() as u64);
+    let sum: i64 = snapshot.charged.iter().map(|e| e.3).sum();
+    let mut ok = true;
+    let mut fail = |signature: &str, detail: String| {
+        findings.push(Finding { props: vec!["C05"], signature: signature.to_string(), detail, witness: witness.clone(), inconclusive: false });
+    };
+    if sum != snapshot.weight_used {
+        fail(&format!("C05/total-differs-from-sum-of-charged/{}", context), format!("total weight used {} but the charged weights sum to {} ({})", snapshot.weight_used, sum, context));
+        ok = false;
+    }
+    if sut.cache.total_weight_used() != snapshot.weight_used {
+        fail(&format!("C05/api-total-differs/{}", context), format!("total_weight_used() {} != snapshot {}", sut.cache.total_weight_used(), snapshot.weight_used));
+        ok = false;
+    }
+    let stored_ids: HashMap<u64, u64> = snapshot.stored.iter().map(|(k, id, _, _)| (*id, *k)).collect();
+    for (id, key, _, weight) in &snapshot.charged {
+        match stored_ids.get(id) {
+            Some(k) if k == key => {}
+            Some(k) => { fail(&format!("C05/charged-under-other-key/{}", context), format!("id {} is charged for key {} but stored for key {}", id, key, k)); ok = false; }
+            None => { fail(&format!("C05/weight-charged-for-gone-key/{}", context), format!("id {} (key {}, weight {}) is charged but no entry with that id is held ({})", id, key, weight, context)); ok = false; }
+        }
+    }
+    let charged_ids: BTreeSet<u64> = snapshot.charged.iter().map(|e| e.0).collect();
+    for (key, id, _, soft) in &snapshot.stored {
+        if !charged_ids.contains(id) { fail(&format!("C05/held-key-not-charged/{}", context), format!("key {} (id {}) is held but not charged ({})", key, id, context)); ok = false; }
+        if *soft { fail(&format!("C05/soft-deleted-entry-at-quiescence/{}", context), format!("key {} is still marked deleted at quiescence ({})", key, context)); ok = false; }
+    }
+    ok
+}
+
+// ------------------------------------------------------------------------------------------------ scenario plumbing
+
+pub struct CaseOut {
+    pub findings: Vec<Finding>,
+    pub counts: Counts,
+    pub signature: u64,
+    pub nontrivial: bool,
+    pub sample: J,
+}
+
+fn prep(perturb_seed: u64, p_yield: u64, p_spin: u64, p_sleep: u64, keep_events: bool) {
+    let r = recorder();
+    r.keep.store(keep_events, Ordering::SeqCst);
+    r.track_acked.store(true, Ordering::SeqCst);
+    r.check_weight_bounds.store(true, Ordering::SeqCst);
+    let _ = r.take_events();
+    let _ = r.take_weight_violations();
+    r.clear_acked();
+    r.weight_min.store(0, Ordering::SeqCst);
+    r.weight_max_seen.store(0, Ordering::SeqCst);
+    sched().release_all();
+    sched().set_random(perturb_seed, p_yield, p_spin, p_sleep);
+    sched().quiet_mask.store(0, Ordering::SeqCst);
+}
+
+fn witness_of(case: &J, recs: &[&OpRec]) -> J {
+    case.clone().with("operations", J::Arr(recs.iter().map(|r| r.to_json()).collect()))
+}
+
+fn weight_bound_findings(findings: &mut Vec<Finding>, case: &J, context: &str) {
+    for (site, key_id, total, max) in recorder().take_weight_violations() {
+        findings.push(Finding { props: vec!["C01"], signature: format!("C01/total-outside-bounds/site={}/{}", site, context),
+            detail: format!("total weight became {} (limit {}) at {} of key id {}", total, max, site, key_id), witness: case.clone(), inconclusive: false });
+    }
+}
+
+/// Spins on the public `total_weight_used()` and checks the range at the API boundary (C01 b).
+fn observer(cache: Arc<Cache>, max: i64, stop: Arc<AtomicBool>, samples: Arc<AtomicU64>, bad: Arc<Mutex<Vec<i64>>>, lo: Arc<AtomicI64>, hi: Arc<AtomicI64>) {
+    while !stop.load(Ordering::Relaxed) {
+        let total = cache.total_weight_used();
+        samples.fetch_add(1, Ordering::Relaxed);
+        lo.fetch_min(total, Ordering::Relaxed);
+        hi.fetch_max(total, Ordering::Relaxed);
+        if total < 0 || total > max {
+            let mut bad = bad.lock().unwrap();
+            if bad.len() < 8 { bad.push(total); }
+        }
+        std::hint::spin_loop();
+    }
+}
+
+// ------------------------------------------------------------------------------------------------ scenario: mixed
+
+#[derive(Clone, Debug)]
+struct MixedCfg {
+    threads: usize,
+    keys: u64,
+    ops: usize,
+    pressure: bool,
+    ttl: bool,
+    clean_weights: bool,
+    with_shutdown: bool,
+    sut: SutCfg,
+    perturb: (u64, u64, u64),
+}
+
+fn mixed_cfg(focus: &str, seed: u64, index: u64, clean: bool) -> MixedCfg {
+    let mut rng = rt::rng_for(seed, index, 0xC0C);
+    let threads = *rng.pick(&[2usize, 3, 4, 6, 8, 12, 16]);
+    let keys = rng.range(1, 8);
+    let pressure = match focus { "C03" => false, _ => rng.chance(1, 2) };
+    let weight_mode = if rng.chance(1, 2) { WeightMode::Default } else { WeightMode::Custom };
+    let clean_weights = clean || focus != "C01" || rng.chance(1, 2);
+    let max_weight = if pressure {
+        if clean_weights { rng.range(60, 300) as i64 } else { match weight_mode { WeightMode::Default => rng.range(120, 500) as i64, WeightMode::Custom => rng.range(30, 150) as i64 } }
+    } else { 1_000_000 };
+    let sut = SutCfg {
+        counters: *rng.pick(&[2u64, 10, 100, 1000]),
+        capacity: *rng.pick(&[1usize, 16, 64]),
+        max_weight,
+        shards: *rng.pick(&[2usize, 2, 2, 4, 16]),
+        cmd_buf: *rng.pick(&[1usize, 2, 8, 1024]),
+        pool: *rng.pick(&[1usize, 2, 8]),
+        buf: *rng.pick(&[1usize, 2, 16]),
+        tick: Duration::from_millis(1),
+        weight_mode,
+        hash_mode: if rng.chance(1, 4) { HashMode::Constant } else { HashMode::Default },
+        start_ns: rt::START_NS,
+    };
+    let perturb = *rng.pick(&[(0u64, 0u64, 0u64), (30, 10, 2), (100, 30, 5), (10, 60, 10), (200, 0, 0)]);
+    MixedCfg { threads, keys, ops: rng.range(40, 250) as usize, pressure, ttl: rng.chance(1, 2), clean_weights, with_shutdown: false, sut, perturb }
+}
+
+fn key_weight(key: u64) -> i64 { 25 + (key * 7 % 20) as i64 }
+
+fn gen_write(rng: &mut Rng, client: &mut Client, cfg: &MixedCfg, key: u64) -> WriteOp {
+    let value = client.token(key);
+    let ttl = || Duration::from_nanos(*[0u64, 1, NS / 2, NS, 2 * NS, 5 * NS, 3600 * NS].get((value % 7) as usize).unwrap());
+    if cfg.clean_weights {
+        // every write of key k carries the same explicit weight: no update can increase a charged weight
+        let weight = key_weight(key);
+        return match rng.below(10) {
+            0..=2 => WriteOp::PutW { key, value, weight },
+            3 if cfg.ttl => WriteOp::PutWTtl { key, value, weight, ttl: ttl() },
+            3 => WriteOp::PutW { key, value, weight },
+            4..=5 => WriteOp::Upsert { key, value: Some(value), weight: Some(weight), ttl: None, remove_ttl: false },
+            6 if cfg.ttl => WriteOp::Upsert { key, value: Some(value), weight: Some(weight), ttl: Some(ttl()), remove_ttl: false },
+            6 => WriteOp::Upsert { key, value: Some(value), weight: Some(weight), ttl: None, remove_ttl: false },
+            7 if cfg.ttl => WriteOp::Upsert { key, value: Some(value), weight: Some(weight), ttl: None, remove_ttl: true },
+            _ => WriteOp::Delete { key },
+        };
+    }
+    let weight = rng.range(1, (cfg.sut.max_weight.min(400) as u64).max(2)) as i64;
+    match rng.below(12) {
+        0 => WriteOp::Put { key, value },
+        1..=2 => WriteOp::PutW { key, value, weight },
+        3 if cfg.ttl => WriteOp::PutTtl { key, value, ttl: ttl() },
+        4 if cfg.ttl => WriteOp::PutWTtl { key, value, weight, ttl: ttl() },
+        3 | 4 => WriteOp::Put { key, value },
+        5 => WriteOp::Upsert { key, value: Some(value), weight: None, ttl: None, remove_ttl: false },
+        6 => WriteOp::Upsert { key, value: Some(value), weight: Some(weight), ttl: None, remove_ttl: false },
+        7 if cfg.ttl => WriteOp::Upsert { key, value: Some(value), weight: None, ttl: Some(ttl()), remove_ttl: false },
+        8 if cfg.ttl => WriteOp::Upsert { key, value: Some(value), weight: Some(weight.max(30)), ttl: None, remove_ttl: true },
+        7 | 8 => WriteOp::Upsert { key, value: Some(value), weight: Some(weight), ttl: None, remove_ttl: false },
+        _ => WriteOp::Delete { key },
+    }
+}
+
+fn run_mixed(focus: &'static str, seed: u64, index: u64, clean: bool) -> CaseOut {
+    let cfg = mixed_cfg(focus, seed, index, clean);
+    let mut counts = Counts::default();
+    let mut findings = Vec::new();
+    let case = J::obj().with("engine", J::s("conc")).with("scenario", J::s("mixed")).with("focus", J::s(focus)).with("seed", J::Int(seed as i128))
+        .with("index", J::Int(index as i128)).with("threads", J::u(cfg.threads)).with("keys", J::Int(cfg.keys as i128)).with("ops_per_thread", J::u(cfg.ops))
+        .with("pressure", J::Bool(cfg.pressure)).with("ttl", J::Bool(cfg.ttl)).with("same_explicit_weight_per_key", J::Bool(cfg.clean_weights))
+        .with("perturbation_permille_yield_spin_sleep", J::s(format!("{:?}", cfg.perturb))).with("config", cfg.sut.to_json());
+    prep(rt::rng_for(seed, index, 7).next(), cfg.perturb.0, cfg.perturb.1, cfg.perturb.2, false);
+    let panic_mark = rt::panic_count();
+    let sut = Sut::new(cfg.sut.clone());
+    sched().start_trace();
+    let stop = Arc::new(AtomicBool::new(false));
+    let samples = Arc::new(AtomicU64::new(0));
+    let bad = Arc::new(Mutex::new(Vec::new()));
+    let (lo, hi) = (Arc::new(AtomicI64::new(0)), Arc::new(AtomicI64::new(0)));
+    let mut observers = Vec::new();
+    for _ in 0..2 {
+        let (cache, stop, samples, bad, lo, hi) = (sut.cache.clone(), stop.clone(), samples.clone(), bad.clone(), lo.clone(), hi.clone());
+        let max = cfg.sut.max_weight;
+        observers.push(thread::spawn(move || observer(cache, max, stop, samples, bad, lo, hi)));
+    }
+    // clock advancer: moves the harness clock forward while clients run (expiry + sweeps race the worker)
+    let advancer = if cfg.ttl {
+        let (clock, stop) = (sut.clock.clone(), stop.clone());
+        Some(thread::spawn(move || { let mut n = 0u64; while !stop.load(Ordering::Relaxed) { clock.advance(NS / 4); n += 1; thread::sleep(Duration::from_micros(300)); } n }))
+    } else { None };
+    let marks = sut.marks;
+    let mut handles = Vec::new();
+    for t in 0..cfg.threads {
+        let cache = sut.cache.clone();
+        let cfg = cfg.clone();
+        let mut rng = rt::rng_for(seed, index, 100 + t as u64);
+        handles.push(thread::spawn(move || {
+            let mut client = Client::new(t as u64 + 1);
+            for n in 0..cfg.ops {
+                let key = rng.range(1, cfg.keys);
+                if rng.chance(45, 100) {
+                    let variant = rng.below(7) as usize;
+                    client.read(&cache, key, variant);
+                } else {
+                    let op = gen_write(&mut rng, &mut client, &cfg, key);
+                    client.write(&cache, op);
+                    if rng.chance(1, 2) { client.settle_all(&marks); }
+                }
+                if n % 16 == 15 && rng.chance(1, 3) { client.settle_all(&marks); }
+            }
+            client.settle_all(&marks);
+            client
+        }));
+    }
+    let mut logs: Vec<OpRec> = Vec::new();
+    for handle in handles {
+        match handle.join() {
+            Ok(client) => logs.extend(client.log),
+            Err(_) => findings.push(Finding { props: vec!["C17"], signature: "C17/client-thread-panicked-outside-catch".into(), detail: "a client thread died".into(), witness: case.clone(), inconclusive: false }),
+        }
+    }
+    stop.store(true, Ordering::SeqCst);
+    for o in observers { let _ = o.join(); }
+    let advances = advancer.map(|a| a.join().unwrap_or(0)).unwrap_or(0);
+    let trace = sched().stop_trace();
+    sched().quiet();
+    logs.sort_by_key(|r| r.call);
+    counts.add("client_operations", logs.len() as u64);
+    counts.add("clock_advances", advances);
+    counts.add("observer_samples", samples.load(Ordering::Relaxed));
+    counts.add("weight_change_events", recorder().weight_events.swap(0, Ordering::Relaxed));
+    counts.add("schedule_perturbations_injected", sched().injected.swap(0, Ordering::Relaxed));
+    let witness = |recs: &[&OpRec]| witness_of(&case, recs);
+    // C01: online invariant (under the total's lock) + boundary observers
+    let dirty = if cfg.clean_weights { "same-weight-per-key" } else { "free-weights" };
+    weight_bound_findings(&mut findings, &case, dirty);
+    for total in bad.lock().unwrap().iter() {
+        findings.push(Finding { props: vec!["C01"], signature: format!("C01/total-outside-bounds/observed-at-api/{}", dirty),
+            detail: format!("total_weight_used() returned {} with limit {}", total, cfg.sut.max_weight), witness: case.clone(), inconclusive: false });
+    }
+    counts.add("max_total_seen_permille_of_limit", if cfg.pressure { (hi.load(Ordering::Relaxed).max(0) as u64 * 1000) / cfg.sut.max_weight as u64 } else { 0 });
+    check_ack_outcomes(&logs, false, &mut counts, &mut findings, &witness, panic_mark);
+    check_reads(&logs, &mut counts, &mut findings, &witness);
+    // quiescence: every command acknowledged, two sweeps since the clock stopped
+    let mut quiescent = true;
+    if let Err(waited) = sut.quiesce().and_then(|_| sut.settle_fresh()) {
+        quiescent = false;
+        push_stuck(&mut findings, "quiescence after a mixed run", waited, &case);
+    }
+    if quiescent && sut.background_exits().is_empty() {
+        check_quiescent_accounting(&sut, dirty, &mut counts, &mut findings, case.clone());
+        // corollary through the public API: delete everything, then nothing may stay charged
+        let mut client = Client::new(99);
+        for key in 1..=cfg.keys { client.write(&sut.cache, WriteOp::Delete { key }); }
+        client.settle_all(&marks);
+        if sut.quiesce().and_then(|_| sut.settle_fresh()).is_ok() {
+            let total = sut.cache.total_weight_used();
+            let held = sut.snapshot().stored.len();
+            if total != 0 || held != 0 {
+                findings.push(Finding { props: vec!["C05"], signature: format!("C05/weight-left-after-deleting-every-key/{}", dirty),
+                    detail: format!("after deleting every key and settling, total_weight_used() is {} and {} entries are held", total, held), witness: case.clone(), inconclusive: false });
+            }
+            counts.inc("delete_everything_checks");
+        }
+    } else if !sut.background_exits().is_empty() {
+        let site = rt::panics_since(panic_mark).last().map(rt::panic_site).unwrap_or_else(|| "no-panic".into());
+        findings.push(Finding { props: vec!["C17"], signature: format!("C17/background-thread-exited/{:?}/{}/concurrent", sut.background_exits(), site),
+            detail: format!("background thread(s) {:?} exited during a mixed run", sut.background_exits()), witness: case.clone(), inconclusive: false });
+    }
+    let signature = rt::trace_signature(&trace);
+    counts.add("schedule_points_visited", trace.len() as u64);
+    let nontrivial = counts.get("reads_overlapping_a_write_of_the_same_key") > 0 && counts.get("reads_returned_value") > 0;
+    let sample = case.clone().with("first_operations", J::Arr(logs.iter().take(12).map(|r| r.to_json()).collect()));
+    if let Err(waited) = sut.finish() { if findings.is_empty() { push_stuck(&mut findings, "shutdown after a mixed run", waited, &case); } }
+    counts.inc("cases");
+    CaseOut { findings, counts, signature, nontrivial, sample }
+}
+
+fn push_stuck(findings: &mut Vec<Finding>, what: &str, waited: Waited, case: &J) {
+    match waited {
+        Waited::Deadlock(description) => findings.push(Finding { props: vec!["C18", "C13"], signature: format!("C18/deadlock/{}", what.replace(' ', "-")),
+            detail: format!("{}: every thread blocked: {}", what, description), witness: case.clone(), inconclusive: false }),
+        Waited::WorkerDead => findings.push(Finding { props: vec!["C17"], signature: format!("C17/background-thread-dead/{}", what.replace(' ', "-")),
+            detail: format!("{}: a background thread is gone", what), witness: case.clone(), inconclusive: false }),
+        other => findings.push(Finding { props: vec!["C18"], signature: "inconclusive/stuck".into(), detail: format!("{}: {}", what, waited_name(&other)), witness: J::Null, inconclusive: true }),
+    }
+}
+
+// ------------------------------------------------------------------------------------------------ scenario: same-key puts (C05 / C07 directed)
+
+/// Two puts of one key that both pass the existence check before either is applied.
+/// variant 0: two threads, the first held at PutAfterPresenceCheck; variant 1: one thread, worker held, no awaiting;
+/// variant 2: put racing an upsert of the same absent key; variant 3: delete racing put.
+fn run_same_key(focus: &'static str, seed: u64, index: u64) -> CaseOut {
+    let mut rng = rt::rng_for(seed, index, 0x5A3E);
+    let variant = index % 4;
+    let mut counts = Counts::default();
+    let mut findings = Vec::new();
+    let sutcfg = SutCfg {
+        counters: 100, capacity: 16, max_weight: *rng.pick(&[1000i64, 100_000, 150]), shards: 2, cmd_buf: *rng.pick(&[2usize, 8, 64]), pool: 1, buf: 2,
+        tick: Duration::from_millis(1), weight_mode: if rng.chance(1, 2) { WeightMode::Default } else { WeightMode::Custom }, hash_mode: HashMode::Default, start_ns: rt::START_NS,
+    };
+    let with_ttl = rng.chance(1, 2);
+    let case = J::obj().with("engine", J::s("conc")).with("scenario", J::s("same-key")).with("variant", J::Int(variant as i128)).with("focus", J::s(focus))
+        .with("seed", J::Int(seed as i128)).with("index", J::Int(index as i128)).with("config", sutcfg.to_json()).with("with_ttl", J::Bool(with_ttl));
+    prep(1, 0, 0, 0, false);
+    let panic_mark = rt::panic_count();
+    let sut = Sut::new(sutcfg);
+    let marks = sut.marks;
+    let key = rng.range(1, 4);
+    let mut first = Client::new(1);
+    let mut second = Client::new(2);
+    let make_put = |client: &mut Client, rng: &mut Rng| {
+        let value = client.token(key);
+        let weight = rng.range(10, 60) as i64;
+        if with_ttl { WriteOp::PutWTtl { key, value, weight, ttl: Duration::from_secs(3600) } } else { WriteOp::PutW { key, value, weight } }
+    };
+    let mut window_entered = false;
+    match variant {
+        0 => {
+            let op1 = make_put(&mut first, &mut rng);
+            let op2 = make_put(&mut second, &mut rng);
+            sched().arm(Site::PutAfterPresenceCheck, 0);
+            let cache = sut.cache.clone();
+            let handle = thread::spawn(move || { first.write(&cache, op1); first.settle_all(&marks); first });
+            if sched().wait_holding(Site::PutAfterPresenceCheck, Duration::from_secs(5)) {
+                window_entered = true;
+                second.write(&sut.cache, op2);
+                second.settle_all(&marks);
+            }
+            sched().release(Site::PutAfterPresenceCheck);
+            first = handle.join().unwrap();
+        }
+        1 => {
+            let op1 = make_put(&mut first, &mut rng);
+            let op2 = make_put(&mut first, &mut rng);
+            sched().arm(Site::WorkerDequeued, 0);
+            // a harmless command first, so that the worker is held before it can apply either put
+            second.write(&sut.cache, WriteOp::Delete { key: 77 });
+            if sched().wait_holding(Site::WorkerDequeued, Duration::from_secs(5)) {
+                window_entered = true;
+                first.write(&sut.cache, op1);
+                first.write(&sut.cache, op2);
+            }
+            sched().release(Site::WorkerDequeued);
+            first.settle_all(&marks);
+            second.settle_all(&marks);
+        }
+        2 => {
+            let op1 = make_put(&mut first, &mut rng);
+            let value = second.token(key);
+            let op2 = WriteOp::Upsert { key, value: Some(value), weight: Some(rng.range(10, 60) as i64), ttl: if with_ttl { Some(Duration::from_secs(7200)) } else { None }, remove_ttl: false };
+            sched().arm(Site::WorkerDequeued, 0);
+            second.write(&sut.cache, WriteOp::Delete { key: 77 });
+            if sched().wait_holding(Site::WorkerDequeued, Duration::from_secs(5)) {
+                window_entered = true;
+                first.write(&sut.cache, op1);
+                second.write(&sut.cache, op2);
+            }
+            sched().release(Site::WorkerDequeued);
+            first.settle_all(&marks);
+            second.settle_all(&marks);
+        }
+        _ => {
+            // put acknowledged, then delete and a fresh put issued back to back without awaiting, worker held
+            let op0 = make_put(&mut first, &mut rng);
+            first.write(&sut.cache, op0);
+            first.settle_all(&marks);
+            let op2 = make_put(&mut second, &mut rng);
+            sched().arm(Site::WorkerDequeued, 0);
+            first.write(&sut.cache, WriteOp::Delete { key });
+            if sched().wait_holding(Site::WorkerDequeued, Duration::from_secs(5)) {
+                window_entered = true;
+                second.write(&sut.cache, op2);
+            }
+            sched().release(Site::WorkerDequeued);
+            first.settle_all(&marks);
+            second.settle_all(&marks);
+        }
+    }
+    if window_entered { counts.inc("races_where_both_writes_passed_the_existence_check_before_the_first_was_applied"); } else { counts.inc("window_not_entered"); }
+    let mut logs: Vec<OpRec> = Vec::new();
+    logs.extend(first.log.iter().cloned());
+    logs.extend(second.log.iter().cloned());
+    logs.sort_by_key(|r| r.call);
+    let witness = |recs: &[&OpRec]| witness_of(&case, recs);
+    let race_logs: Vec<OpRec> = logs.clone();
+    let all: Vec<&OpRec> = race_logs.iter().collect();
+    check_ack_outcomes(&logs, false, &mut counts, &mut findings, &witness, panic_mark);
+    // C07 (concurrent form): of two racing puts of one key at most one may be accepted, and the loser's value is never read
+    let puts: Vec<&OpRec> = race_logs.iter().filter(|r| matches!(&r.outcome, Outcome::Write { op, .. } if op.is_put() && op.key() == key)).collect();
+    let accepted_puts: Vec<&&OpRec> = puts.iter().filter(|r| matches!(&r.outcome, Outcome::Write { status: Some(Waited::Ready(CommandStatus::Accepted)), .. })).collect();
+    if variant <= 1 && window_entered && accepted_puts.len() > 1 {
+        findings.push(Finding { props: vec!["C07", "C05"], signature: format!("C07/two-racing-puts-of-one-key-both-accepted/variant={}", variant),
+            detail: format!("two puts of key {} that both passed the existence check before the first was applied were both acknowledged Accepted: the second silently overwrote the first", key),
+            witness: witness(&all), inconclusive: false });
+    }
+    let mut reader = Client::new(3);
+    for v in 0..7 { reader.read(&sut.cache, key, v); }
+    logs.extend(reader.log.iter().cloned());
+    logs.sort_by_key(|r| r.call);
+    check_reads(&logs, &mut counts, &mut findings, &witness);
+    if let Err(waited) = sut.quiesce().and_then(|_| sut.settle_fresh()) {
+        push_stuck(&mut findings, "quiescence after a same-key race", waited, &case);
+    } else {
+        let context = format!("same-key/variant={}", variant);
+        check_quiescent_accounting(&sut, &context, &mut counts, &mut findings, witness(&all));
+        let mut client = Client::new(99);
+        client.write(&sut.cache, WriteOp::Delete { key });
+        client.settle_all(&marks);
+        if sut.quiesce().and_then(|_| sut.settle_fresh()).is_ok() {
+            let total = sut.cache.total_weight_used();
+            if total != 0 {
+                findings.push(Finding { props: vec!["C05"], signature: format!("C05/weight-left-after-deleting-every-key/{}", context),
+                    detail: format!("after the race the key was deleted (acknowledged) and the cache holds nothing, yet total_weight_used() is {}", total), witness: witness(&all), inconclusive: false });
+            }
+            counts.inc("delete_everything_checks");
+        }
+    }
+    let signature = fnv_step(fnv_step(0x5A3E, variant), (with_ttl as u64) << 8 | sut.cfg.cmd_buf as u64);
+    let sample = case.clone().with("operations", J::Arr(logs.iter().take(12).map(|r| r.to_json()).collect()));
+    if let Err(waited) = sut.finish() { if findings.is_empty() { push_stuck(&mut findings, "shutdown after a same-key race", waited, &case); } }
+    counts.inc("cases");
+    CaseOut { findings, counts, signature: fnv_step(signature, key), nontrivial: window_entered, sample }
+}
+
+// ------------------------------------------------------------------------------------------------ dispatch
+
+pub fn run(args: &Args) -> Shard {
+    let focus = crate::props::static_focus(&args.str("focus", "C02"));
+    let scenario = args.str("scenario", "mixed");
+    let seed = args.u64("seed", 1);
+    let from = args.u64("from", 0);
+    let count = args.u64("count", 20);
+    let stride = args.u64("stride", 1);
+    let clean = args.u64("clean", 0) == 1;
+    let budget = Duration::from_secs(args.u64("budget-s", 3600));
+    let mut shard = Shard::new(&format!("conc-{}", scenario), focus);
+    let started = Instant::now();
+    let mut index = from;
+    let mut done = 0;
+    while done < count && started.elapsed() < budget {
+        let out = match scenario.as_str() {
+            "mixed" => run_mixed(focus, seed, index, clean),
+            "same-key" => run_same_key(focus, seed, index),
+            "burst" => crate::conc2::run_burst(focus, seed, index),
+            "shutdown" => crate::conc2::run_shutdown(focus, seed, index),
+            "stall" => crate::conc2::run_stall(focus, seed, index),
+            "stress" => crate::conc2::run_stress(focus, seed, index, args),
+            other => { eprintln!("unknown scenario {}", other); std::process::exit(2); }
+        };
+        shard.case(out.signature, out.nontrivial);
+        shard.counts.merge(&out.counts);
+        if out.nontrivial { shard.sample(out.sample); }
+        for finding in out.findings { shard.add_finding(finding); }
+        index += stride;
+        done += 1;
+    }
+    let mut visits = J::obj();
+    for (site, n) in sched().visit_counts() { visits.set(format!("{:?}", site), J::Int(n as i128)); }
+    shard.extra = J::obj().with("site_visits", visits).with("gate_holds", J::Int(sched().gate_holds.load(Ordering::SeqCst) as i128))
+        .with("gate_timeouts", J::Int(sched().gate_timeouts.load(Ordering::SeqCst) as i128));
+    shard
+}
+
+#[allow(dead_code)]
+fn unused() { let _ = (BTreeMap::<u8, u8>::new(), CommandKind::Put, Event::Acked { uid: 0 }, Role::Worker, RejectionReason::KeyDoesNotExist, StatsType::CacheHits); }
